@@ -1,6 +1,7 @@
 import Ivg.Lemmas.RatInst
 import Ivg.Model.Generator
 import Ivg.Model.MdIcons
+import Ivg.Model.Renderer
 import Batteries.Tactic.OpenPrivate
 import Mathlib.Tactic.Ring
 import Mathlib.Tactic.FieldSimp
@@ -456,6 +457,236 @@ theorem setgradient_layout (cSel nSel shape spread : UInt8) (stops : List (α ×
     rfl
 
 end setGradient
+
+/-! ## C19, number-generic: the calls of `SetGradient` run on the renderer's register machine -/
+
+namespace Rendered
+open Ivg.Ren
+variable {α β : Type} [Arith α] [Arith β] [Wide α β]
+
+theorem get6_set6 {γ : Type} (v : Regs γ) (i j : UInt8) (x : γ) :
+    (v.set6 i x).get6 j = if i.toNat % 64 = j.toNat % 64 then x else v.get6 j := by
+  simp only [Regs.get6, Regs.set6, Vector.getElem_set]
+
+theorem resolve_rgba (c : RGBA) (pal creg : Palette) : (Color.rgbaColor c).resolve pal creg = c := rfl
+
+theorem and3f_toNat (k : UInt8) : (k &&& 0x3f).toNat = k.toNat % 64 := by
+  rw [UInt8.toNat_and]
+  exact Nat.and_two_pow_sub_one_eq_mod k.toNat 6
+
+theorem succ_sel (k : UInt8) : ((k + 1) &&& 0x3f).toNat = (k.toNat + 1) % 64 := by
+  rw [and3f_toNat, UInt8.toNat_add]
+  have := k.toNat_lt
+  simp
+
+/-- everything in the renderer state except the two register files and the two selectors -/
+def others (z : Renderer α β) :=
+  (z.r, z.scaleX, z.biasX, z.scaleY, z.biasY, z.viewBox, z.palette, z.lod0, z.lod1, z.disabled,
+   z.prevSmoothType, z.prevSmoothX, z.prevSmoothY, z.fill, z.penX, z.penY, z.firstX, z.firstY)
+
+def stopCalls (stops : List (α × RGBA)) : List (Call α) :=
+  stops.flatMap (fun s => [.setCReg 0 true (Color.rgbaColor s.2), .setNReg 0 true s.1])
+
+theorem run_cons' (arc : ArcFn α β) (posInf : α) (z : Renderer α β) (c : Call α) (cs : List (Call α)) :
+    z.run arc posInf (c :: cs) =
+      (((z.step arc posInf c).1.run arc posInf cs).1, (z.step arc posInf c).2 ++ ((z.step arc posInf c).1.run arc posInf cs).2) := rfl
+
+/-- the stop loop: stop `i` is written to CREG/NREG[(selector + i) mod 64]; nothing else changes, the
+    selectors advance by the number of stops -/
+theorem stop_loop (arc : ArcFn α β) (posInf : α) (stops : List (α × RGBA)) :
+    ∀ (z : Renderer α β), stops.length ≤ 64 →
+    let z' := (z.run arc posInf (stopCalls stops)).1
+    (z.run arc posInf (stopCalls stops)).2 = [] ∧
+    z'.cSel.toNat % 64 = (z.cSel.toNat + stops.length) % 64 ∧
+    z'.nSel.toNat % 64 = (z.nSel.toNat + stops.length) % 64 ∧
+    others z' = others z ∧
+    (∀ j : UInt8, (∀ i, i < stops.length → (z.cSel.toNat + i) % 64 ≠ j.toNat % 64) → z'.cReg.get6 j = z.cReg.get6 j) ∧
+    (∀ j : UInt8, (∀ i, i < stops.length → (z.nSel.toNat + i) % 64 ≠ j.toNat % 64) → z'.nReg.get6 j = z.nReg.get6 j) ∧
+    (∀ i (hi : i < stops.length) (j : UInt8), j.toNat % 64 = (z.cSel.toNat + i) % 64 → z'.cReg.get6 j = stops[i].2) ∧
+    (∀ i (hi : i < stops.length) (j : UInt8), j.toNat % 64 = (z.nSel.toNat + i) % 64 → z'.nReg.get6 j = stops[i].1) := by
+  induction stops with
+  | nil =>
+    intro z _
+    simp [stopCalls, Renderer.run]
+  | cons s rest ih =>
+    intro z hlen
+    simp only [List.length_cons] at hlen
+    have hlen' : rest.length ≤ 64 := by omega
+    -- the state after the two calls of this stop
+    let z1 : Renderer α β := { z with cReg := z.cReg.set6 z.cSel s.2, cSel := (z.cSel + 1) &&& 0x3f,
+                                      nReg := z.nReg.set6 z.nSel s.1, nSel := (z.nSel + 1) &&& 0x3f }
+    have hrun : z.run arc posInf (stopCalls (s :: rest)) = z1.run arc posInf (stopCalls rest) := by
+      have : stopCalls (s :: rest) =
+          .setCReg 0 true (Color.rgbaColor s.2) :: .setNReg 0 true s.1 :: stopCalls rest := by
+        simp [stopCalls]
+      rw [this, run_cons', run_cons']
+      simp only [Renderer.step, resolve_rgba, if_true, UInt8.sub_zero, List.nil_append]
+      rfl
+    rw [hrun]
+    obtain ⟨h1, h2, h3, h4, h5, h6, h7, h8⟩ := ih z1 hlen'
+    have hc1 : z1.cSel.toNat = (z.cSel.toNat + 1) % 64 := succ_sel z.cSel
+    have hn1 : z1.nSel.toNat = (z.nSel.toNat + 1) % 64 := succ_sel z.nSel
+    refine ⟨h1, ?_, ?_, h4, ?_, ?_, ?_, ?_⟩
+    · simp only [List.length_cons]; omega
+    · simp only [List.length_cons]; omega
+    · intro j hj
+      rw [h5 j (fun i hi => by rw [hc1]; have := hj (i + 1) (by simp; omega); omega)]
+      show (z.cReg.set6 z.cSel s.2).get6 j = _
+      rw [get6_set6, if_neg (by have := hj 0 (by simp); simpa using this)]
+    · intro j hj
+      rw [h6 j (fun i hi => by rw [hn1]; have := hj (i + 1) (by simp; omega); omega)]
+      show (z.nReg.set6 z.nSel s.1).get6 j = _
+      rw [get6_set6, if_neg (by have := hj 0 (by simp); simpa using this)]
+    · intro i hi j hj
+      cases i with
+      | zero =>
+        rw [h5 j (fun i hi' => by rw [hc1]; simp at hj; omega)]
+        show (z.cReg.set6 z.cSel s.2).get6 j = _
+        rw [get6_set6, if_pos (by simp at hj; omega)]; rfl
+      | succ i =>
+        simp only [List.getElem_cons_succ]
+        exact h7 i (by simpa using hi) j (by rw [hc1]; omega)
+    · intro i hi j hj
+      cases i with
+      | zero =>
+        rw [h6 j (fun i hi' => by rw [hn1]; simp at hj; omega)]
+        show (z.nReg.set6 z.nSel s.1).get6 j = _
+        rw [get6_set6, if_pos (by simp at hj; omega)]; rfl
+      | succ i =>
+        simp only [List.getElem_cons_succ]
+        exact h8 i (by simpa using hi) j (by rw [hn1]; omega)
+
+theorem run_append' (arc : ArcFn α β) (posInf : α) (a b : List (Call α)) : ∀ (z : Renderer α β),
+    z.run arc posInf (a ++ b) =
+      (((z.run arc posInf a).1.run arc posInf b).1, (z.run arc posInf a).2 ++ ((z.run arc posInf a).1.run arc posInf b).2) := by
+  induction a with
+  | nil => intro z; rfl
+  | cons c cs ih =>
+    intro z
+    rw [List.cons_append, run_cons', run_cons', ih]
+    simp only [List.append_assoc]
+
+theorem sel_mask (k : UInt8) (h : k.toNat < 64) : k &&& 0x3f = k := by
+  apply UInt8.toNat_inj.mp
+  rw [and3f_toNat]; omega
+
+/-- Clauses "stop colours and offsets are stored in the contiguous registers the written gradient value
+    itself names, with the matrix in the six number registers below its number base; … CSEL and NSEL are
+    left as they were", on the RENDERER's register machine, for every number type: running the calls of a
+    successful `SetGradient` (made with the renderer's own selector values, both `< 64`) makes no rasteriser
+    call and leaves a state in which
+    * CSEL and NSEL are what they were;
+    * CREG[CSEL] holds the gradient value `g` (which names bases 10/10, the shape, spread and stop count);
+    * CREG[(10+i) mod 64] / NREG[(10+i) mod 64] hold the colour / offset of stop `i`;
+    * NREG[4 … 9] = NREG[10−6 … 10−1] hold the matrix `t.a0 … t.a5`;
+    * every other register and everything else in the renderer state is unchanged. -/
+theorem setGradient_rendered (arc : ArcFn α β) (posInf : α) (z : Renderer α β)
+    (hcs : z.cSel.toNat < 64) (hns : z.nSel.toNat < 64)
+    (shape spread : UInt8) (stops : List (α × RGBA)) (t : Aff3 α) (calls : List (Call α))
+    (h : setGradient z.cSel z.nSel shape spread stops t = .ok calls) :
+    let z' := (z.run arc posInf calls).1
+    let g := encodeGradient 10 10 shape spread (UInt8.ofNat stops.length)
+    (z.run arc posInf calls).2 = [] ∧
+    z'.cSel = z.cSel ∧ z'.nSel = z.nSel ∧ others z' = others z ∧
+    z'.cReg.get6 z.cSel = g ∧
+    (∀ i (hi : i < stops.length) (j : UInt8), j.toNat % 64 = (10 + i) % 64 →
+      z'.cReg.get6 j = stops[i].2 ∧ z'.nReg.get6 j = stops[i].1) ∧
+    (z'.nReg.get6 4 = t.a0 ∧ z'.nReg.get6 5 = t.a1 ∧ z'.nReg.get6 6 = t.a2 ∧
+     z'.nReg.get6 7 = t.a3 ∧ z'.nReg.get6 8 = t.a4 ∧ z'.nReg.get6 9 = t.a5) ∧
+    (∀ j : UInt8, j.toNat % 64 ≠ z.cSel.toNat → (∀ i, i < stops.length → (10 + i) % 64 ≠ j.toNat % 64) →
+      z'.cReg.get6 j = z.cReg.get6 j) ∧
+    (∀ j : UInt8, (j.toNat % 64 < 4 ∨ 9 < j.toNat % 64) → (∀ i, i < stops.length → (10 + i) % 64 ≠ j.toNat % 64) →
+      z'.nReg.get6 j = z.nReg.get6 j) := by
+  intro z' g
+  -- the call list
+  have hn : stops.length ≤ 58 := by
+    by_contra hh
+    rw [(too_many_stops z.cSel z.nSel shape spread stops t).1 (by omega)] at h; cases h
+  have hcl : ¬ cselClash z.cSel stops.length := by
+    intro hh
+    rw [(csel_in_stop_range z.cSel z.nSel shape spread stops t hn).mpr hh] at h; cases h
+  have hnc : ∀ i, i < stops.length → (10 + i) % 64 ≠ z.cSel.toNat := by
+    intro i hi heq
+    exact hcl ((cselClash_iff z.cSel stops.length hn hcs).mpr ⟨i, hi, heq⟩)
+  have hcalls := (setgradient_layout z.cSel z.nSel shape spread stops t hn hcl).1
+  rw [hcalls] at h
+  have hc := (Except.ok.inj h).symm
+  -- the state before the stop loop
+  let zp : Renderer α β := { z with
+    cReg := z.cReg.set6 z.cSel g, cSel := 10, nSel := 10,
+    nReg := (((((z.nReg.set6 4 t.a0).set6 5 t.a1).set6 6 t.a2).set6 7 t.a3).set6 8 t.a4).set6 9 t.a5 }
+  have hpre : ∀ rest : List (Call α),
+      z.run arc posInf ([.setCReg 0 false (Color.rgbaColor g), .setCSel 10, .setNSel 10,
+        .setNReg 6 false t.a0, .setNReg 5 false t.a1, .setNReg 4 false t.a2,
+        .setNReg 3 false t.a3, .setNReg 2 false t.a4, .setNReg 1 false t.a5] ++ rest) =
+      zp.run arc posInf rest := by
+    intro rest
+    simp only [List.cons_append, List.nil_append, run_cons', Renderer.step, resolve_rgba, UInt8.sub_zero,
+      Bool.false_eq_true, if_false]
+    rfl
+  obtain ⟨l1, l2, l3, l4, l5, l6, l7, l8⟩ := stop_loop arc posInf stops zp (by omega)
+  have hfin : z.run arc posInf calls =
+      ({ (zp.run arc posInf (stopCalls stops)).1 with cSel := z.cSel &&& 0x3f, nSel := z.nSel &&& 0x3f }, []) := by
+    rw [hc, List.append_assoc, hpre]
+    show zp.run arc posInf (stopCalls stops ++ [.setCSel z.cSel, .setNSel z.nSel]) = _
+    rw [run_append', l1]
+    rfl
+  have ez' : z' = { (zp.run arc posInf (stopCalls stops)).1 with cSel := z.cSel &&& 0x3f, nSel := z.nSel &&& 0x3f } :=
+    congrArg Prod.fst hfin
+  have hzpc : zp.cSel.toNat = 10 := rfl
+  have hzpn : zp.nSel.toNat = 10 := rfl
+  rw [hzpc] at l5 l7
+  rw [hzpn] at l6 l8
+  refine ⟨congrArg Prod.snd hfin, ?_, ?_, ?_, ?_, ?_, ?_, ?_, ?_⟩
+  · rw [ez']; exact sel_mask _ hcs
+  · rw [ez']; exact sel_mask _ hns
+  · rw [ez']; exact l4
+  · rw [ez']
+    show (zp.run arc posInf (stopCalls stops)).1.cReg.get6 z.cSel = g
+    rw [l5 z.cSel (fun i hi => by have := hnc i hi; omega)]
+    show (z.cReg.set6 z.cSel g).get6 z.cSel = g
+    rw [get6_set6, if_pos rfl]
+  · intro i hi j hj
+    rw [ez']
+    exact ⟨l7 i hi j hj, l8 i hi j hj⟩
+  · rw [ez']
+    have key : ∀ (j : UInt8), 4 ≤ j.toNat → j.toNat ≤ 9 →
+        (zp.run arc posInf (stopCalls stops)).1.nReg.get6 j = zp.nReg.get6 j :=
+      fun j h1 h2 => l6 j (fun i hi => by omega)
+    refine ⟨?_, ?_, ?_, ?_, ?_, ?_⟩
+    · show (zp.run arc posInf (stopCalls stops)).1.nReg.get6 4 = _
+      rw [key 4 (by decide) (by decide)]; simp [zp, get6_set6]
+    · show (zp.run arc posInf (stopCalls stops)).1.nReg.get6 5 = _
+      rw [key 5 (by decide) (by decide)]; simp [zp, get6_set6]
+    · show (zp.run arc posInf (stopCalls stops)).1.nReg.get6 6 = _
+      rw [key 6 (by decide) (by decide)]; simp [zp, get6_set6]
+    · show (zp.run arc posInf (stopCalls stops)).1.nReg.get6 7 = _
+      rw [key 7 (by decide) (by decide)]; simp [zp, get6_set6]
+    · show (zp.run arc posInf (stopCalls stops)).1.nReg.get6 8 = _
+      rw [key 8 (by decide) (by decide)]; simp [zp, get6_set6]
+    · show (zp.run arc posInf (stopCalls stops)).1.nReg.get6 9 = _
+      rw [key 9 (by decide) (by decide)]; simp [zp, get6_set6]
+  · intro j hj1 hj2
+    rw [ez']
+    show (zp.run arc posInf (stopCalls stops)).1.cReg.get6 j = _
+    rw [l5 j hj2]
+    show (z.cReg.set6 z.cSel g).get6 j = _
+    rw [get6_set6, if_neg (by omega)]
+  · intro j hj1 hj2
+    rw [ez']
+    show (zp.run arc posInf (stopCalls stops)).1.nReg.get6 j = _
+    rw [l6 j hj2]
+    simp only [zp, get6_set6]
+    have e4 : (4 : UInt8).toNat % 64 = 4 := rfl
+    have e5 : (5 : UInt8).toNat % 64 = 5 := rfl
+    have e6 : (6 : UInt8).toNat % 64 = 6 := rfl
+    have e7 : (7 : UInt8).toNat % 64 = 7 := rfl
+    have e8 : (8 : UInt8).toNat % 64 = 8 := rfl
+    have e9 : (9 : UInt8).toNat % 64 = 9 := rfl
+    rw [e4, e5, e6, e7, e8, e9]
+    rw [if_neg (by omega), if_neg (by omega), if_neg (by omega), if_neg (by omega), if_neg (by omega),
+      if_neg (by omega)]
+end Rendered
 
 /-! ## C20, number-generic: the converter's opacity registers and circles -/
 
